@@ -117,6 +117,7 @@ type c16Step struct {
 	Pub   string  `json:"pub"`
 	Sig   *c16Sig `json:"sig"`
 	Nonce int     `json:"nonce"`
+	Opt   bool    `json:"opt"` // appended by the runner ("consume what is still on the wire"): not counted when not enabled
 }
 
 type c16Sched struct {
@@ -387,6 +388,7 @@ type c16Party struct {
 	closedIn   bool
 	stream     []byte // plaintext written so far
 	hsPlain    []byte // plaintext chunk of the own handshake frame
+	authSig    []byte // the signature this party really put into its AuthSigMessage
 	fwd        int    // how many of the peer's frames the driver has passed on / skipped
 	cursor     int    // bytes returned by Read so far that continued the peer's stream
 	gen        *rand.Rand
@@ -409,6 +411,7 @@ type c16World struct {
 	sigB    map[string][]byte  // json(c16Sig) -> bytes
 	mKeyEnt *c16KeyEnt
 	exch    map[string][3]string // loc|rem -> json(send), json(recv), json(chal)
+	lastSig []byte               // signature bytes of the last handshake frame abstractFrame opened
 	skipped int
 	events  int
 }
@@ -666,6 +669,7 @@ func (w *c16World) abstractFrame(raw []byte, hintKey c16Key, hintNonce int, hint
 				f.Kind = "auth"
 				f.Pub = w.pubName(pk)
 				f.Sig = w.sigName(pba.Sig)
+				w.lastSig = append([]byte{}, pba.Sig...)
 				f.Src = hintSrc
 				if ke.name.Half == 0 || hintSrc == "" {
 					f.Src = "M"
@@ -832,6 +836,9 @@ func (w *c16World) takeFrames(p *c16Party, offHint int) []c16Frame {
 		f := w.abstractFrame(raw, hintKey, len(p.frames), p.name, offHint, len(p.frames)+3)
 		if f.Kind == "auth" {
 			f.Src = p.name
+			if p.authSig == nil {
+				p.authSig = w.lastSig
+			}
 			if p.hsPlain == nil {
 				// remember the plaintext chunk so that it can be recognised if it is ever read as data
 				if e := w.keyByName(f.Key); e != nil {
@@ -1054,12 +1061,13 @@ func (w *c16World) mOp(p *c16Party, st c16Step) bool {
 		} else if c16J(st.Sig.Msg) == c16J(c16Old) && w.parties[st.Sig.Signer] != nil {
 			// what the earlier session recorded: the party's signature over that session's challenge
 			sig, _ = w.parties[st.Sig.Signer].key.Sign(w.chalB[c16J(c16Old)])
+		} else if y := w.parties[st.Sig.Signer]; y != nil && y.authSig != nil {
+			// the signature M found in y's AuthSigMessage (a frame it could open), whatever y really signed
+			sig = y.authSig
 		} else {
-			sig = w.sigB[c16J(*st.Sig)] // a signature M has seen in a frame it could open
-			if sig == nil {
-				return false
-			}
+			return false
 		}
+		actual := w.sigName(sig) // what goes on the wire, named from the bytes
 		pbpk, err := cryptoenc.PubKeyToProto(pub)
 		if err != nil {
 			panic(err)
@@ -1073,10 +1081,10 @@ func (w *c16World) mOp(p *c16Party, st c16Step) bool {
 		copy(frame[4:], bz)
 		raw := ke.aead.Seal(nil, c16Nonce(st.Nonce), frame, nil)
 		w.deliver(p, raw)
-		items = append(items, c16Frame{Key: recvName, Nonce: st.Nonce, Kind: "auth", Pub: st.Pub, Sig: *st.Sig,
+		items = append(items, c16Frame{Key: recvName, Nonce: st.Nonce, Kind: "auth", Pub: st.Pub, Sig: actual,
 			Src: "M", St: "ok"})
 		w.emit("M", p.name, map[string]interface{}{"op": "forge", "i": 0, "items": items, "adv": 0, "closed": false,
-			"pub": st.Pub, "sig": *st.Sig, "nonce": st.Nonce})
+			"pub": st.Pub, "sig": actual, "nonce": st.Nonce})
 		return true
 	default:
 		return false
@@ -1425,7 +1433,7 @@ func TestVerifC16(t *testing.T) {
 		run++
 		w := newC16World(t, out, run, seed, s.Rank, "graph")
 		for _, st := range s.Steps {
-			if !w.exec(st) {
+			if !w.exec(st) && !st.Opt {
 				w.skipped++
 			}
 		}
